@@ -19,6 +19,7 @@ Your task: produce ONE realistic change to the library's non-test source code (t
   (b) the existing test suite still passes: run `cd {wt} && go test -vet=off -count=1 ./... 2>&1 | tail -40` and confirm that the only failures, if any, are TestValidator_PermissionDenied and TestValidateInputFile_NoReadPermissions (those two fail in this sandbox regardless, because it runs as root),
   (c) the breakage needs something specific to manifest - a particular interleaving, a fault at a particular point, a multi-step sequence of operations, an unusual input shape, or two cooperating sites that each look fine alone - rather than being exposed by ordinary use at once.
 {hint}
+Never use `git stash` (the stash is shared between worktrees and other people work in sibling worktrees): to test the unmodified source use `git diff > /tmp/x.diff; git apply -R /tmp/x.diff; ...; git apply /tmp/x.diff`.
 Do not edit or add *_test.go files in the change itself, and do not touch files whose name starts with verif_ or lines that call functions whose name starts with verif (they are instrumentation).
 
 Deliverables, all written into the directory {out} (create it):
